@@ -949,9 +949,10 @@ impl<T: ArrayValue> Array<T> {
                     )));
                 }
                 let mut from_rows = from.row_slices();
-                for (&count, into_slice) in
-                    (counts.iter()).zip(into.data.as_mut_slice().chunks_exact_mut(into_row_len))
-                {
+                // Rows without elements have nothing to copy
+                let into_rows = (into_row_len > 0)
+                    .then(|| into.data.as_mut_slice().chunks_exact_mut(into_row_len));
+                for (&count, into_slice) in counts.iter().zip(into_rows.into_iter().flatten()) {
                     if count < 1.0 {
                         continue;
                     }
@@ -972,10 +973,10 @@ impl<T: ArrayValue> Array<T> {
                 }
                 let n: usize = into.shape[1..into.rank() - from.rank()].iter().product();
                 let from_elem_count = from.element_count();
-                for (&count, into_slice) in counts
-                    .iter()
-                    .zip(into.data.as_mut_slice().chunks_exact_mut(into_row_len))
-                {
+                // Rows without elements have nothing to copy
+                let into_rows = (into_row_len > 0)
+                    .then(|| into.data.as_mut_slice().chunks_exact_mut(into_row_len));
+                for (&count, into_slice) in counts.iter().zip(into_rows.into_iter().flatten()) {
                     if count < 1.0 {
                         continue;
                     }
@@ -1010,8 +1011,10 @@ impl<T: ArrayValue> Array<T> {
                     .chain(into.shape.iter().copied())
                     .collect();
                 let mut new_rows = EcoVec::with_capacity(new_shape.elements());
-                for row in from.row_slices() {
-                    let mut from_subrows = row.chunks_exact(into.row_len());
+                // Rows without elements have nothing to copy
+                let from_rows = (into_row_len > 0).then(|| from.row_slices());
+                for row in from_rows.into_iter().flatten() {
+                    let mut from_subrows = row.chunks_exact(into_row_len);
                     for (&count, into_slice) in counts.iter().zip(into.row_slices()) {
                         if count < 1.0 {
                             new_rows.extend_from_slice(into_slice);
